@@ -192,6 +192,40 @@ def shard_ea_shapes(args):
     return col
 
 
+def shard_documents(args):
+    """Every document C08 classifies - each message tag in every envelope order, message tags nested
+    below non-message elements and inside payloads (with and without a real message element beside
+    them), no message element at all, foreign roots - judged here for the kind of exception only."""
+    from checks import c08
+    from vlib.findings import Collector
+    n, seed = args
+    col = Collector(PROP)
+    if seed % 1000 == 700:
+        for cl, doc in c08.enum_plain_docs():
+            case = {'doc': doc}
+            col.record(case, True, ['classification:enumerated-envelope'] +
+                       (['classification:nested-message-tag'] if 'nested-decoy' in cl else []), judge_doc(case))
+        # a message tag that is NOT a child of the root and has no message element beside it
+        for tag in c08.TAG_ORDER:
+            for wrap in ('mosObj', 'roAck', 'mosExternalMetadata'):
+                inner = c08._payload_for(tag)
+                if wrap == 'mosExternalMetadata':
+                    inner = c08.E('mosPayload', inner)
+                for extra in ((), (c08.T('roID', 'RO1'),)):
+                    root = c08.E('mos', c08.T('mosID', 'M'), c08.T('messageID', '7'), c08.E(wrap, *extra, inner))
+                    case = {'doc': build.tostring(root)}
+                    col.record(case, True, ['classification:nested-message-tag', 'classification:nested-only'], judge_doc(case))
+
+    def one(d):
+        case = {'doc': d['doc']}
+        col.record(case, True, ['classification:generated-document'] +
+                   (['classification:nested-message-tag'] if 'nested-decoy' in d['classes'] else []), judge_doc(case))
+    drive.run_given(c08.document(), one, n, seed)
+    col.scopes.append('classification of generated / enumerated well-formed documents (C08 strategies), message tags nested below '
+                      'non-message elements with no message element beside them')
+    return col
+
+
 def shard_collections(args):
     from hypothesis import strategies as st
     from xml.etree import ElementTree as ET
@@ -255,6 +289,8 @@ def run(tier, seed, procs):
     cols += drive.pool_map(history.shard_history,
                            [(MOD, runs, steps, seed * 1000 + 500 + i, {'faults': 'heavy'})
                             for i in range(hs)], procs)
+    ds, dn = (4, 300) if quick else (16, 20000)
+    cols += drive.pool_map(shard_documents, [(dn, seed * 1000 + 700 + i) for i in range(ds)], procs)
     cs, cn = (4, 50) if quick else (16, 2500)
     cols += drive.pool_map(shard_collections, [(cn, seed * 1000 + 800 + i) for i in range(cs)], procs)
     cols += drive.pool_map(drive.shard_enum_stale, [(MOD, 'story', i, 2 if quick else 3) for i in range(11)], procs)
